@@ -4,6 +4,7 @@ import (
 	"errors"
 	"fmt"
 	"os"
+	"os/exec"
 	"path/filepath"
 	"sort"
 	"strings"
@@ -53,6 +54,33 @@ type Env struct {
 
 // worldSeq numbers the scratch worlds of this process (shared by copies of an Env).
 var worldSeq atomic.Int64
+
+var (
+	cgoOnce   sync.Once
+	cgoUsable bool
+)
+
+// CgoUsable reports whether the go command of the workers can build packages that import "C" here
+// (cgo enabled and a C compiler on PATH). Worlds with cgo files are only drawn when it can.
+func (e *Env) CgoUsable() bool {
+	cgoOnce.Do(func() {
+		cmd := exec.Command(filepath.Join(e.GoRoot, "bin", "go"), "env", "CGO_ENABLED", "CC")
+		cmd.Env = wk.Env(e.GoRoot, 0)
+		out, err := cmd.Output()
+		if err != nil {
+			return
+		}
+		f := strings.Fields(string(out))
+		if len(f) < 2 || f[0] != "1" {
+			return
+		}
+		if _, err := exec.LookPath(f[1]); err != nil {
+			return
+		}
+		cgoUsable = true
+	})
+	return cgoUsable
+}
 
 // NewWorld creates an empty scratch directory.
 func (e *Env) NewWorld() (string, error) {
